@@ -23,9 +23,11 @@ RULE = (
     "V3; 2 outputs L=2 (y_true V3^4, y_pred P2^4); scaled: y_train in V3^3 + P2^4 (2 outputs: "
     "4x4 column patterns incl. flat) x sp{1,2}; relative: benchmark over V / V3 / B2; "
     "horizon_weight {None, ones, (1,2,3), (3,1,1)}[:L]; multioutput {uniform_average, raw_values, "
-    "(0.3,0.7)}; symmetric, square_root, asymmetric threshold {-1,0,1} x 4 left/right pairs, "
-    "relative_loss_function in 4 metrics. thorough: univariate L<=3 over V and L=4 over V3, "
-    "2 outputs over V3^4 x V3^4, all V3^3+V3^4 training series, larger benchmark products. "
+    "(0.3,0.7)}; symmetric, square_root, asymmetric threshold {0,-2,0.5} (hit exactly by errors with e^2 != |e|) x 4 left/right pairs, "
+    "relative_loss_function in 4 metrics. thorough: univariate L<=3 over V (L=3 with ones / "
+    "(3,1,1) weights over V3) and L=4 over V3, 2 outputs over V3^4 x V3^4, all V3^3+V3^4 training "
+    "series (2 outputs: V3^3 x 4 patterns), larger benchmark products. The scale law is "
+    "evaluated on the cases with scale=true (all L=1, L=2 unweighted [thorough: + (1,2)]). "
     "kind=cls: every metric class x every constructor option set (and the default constructor) "
     "x small data; compared with its function. The seed only rotates the container kind "
     "(numpy / python lists / pandas in the cycle np,list,pd,np,list by case index + seed). non-trivial = an evaluation with "
@@ -143,7 +145,9 @@ def optsets(name):
                     o["square_root"] = s
                 out.append(o)
     elif fam == "asym":
-        for thr in (0.0, -1.0, 1.0):
+        # thresholds that some error y_true - y_pred hits exactly AND where squared != absolute
+        # (with {-1,0,1} the boundary case e == threshold cannot tell `<` from `<=`)
+        for thr in (0.0, -2.0, 0.5):
             for l, r in LR:
                 out.append({"asymmetric_threshold": thr, "left_error_function": l,
                             "right_error_function": r})
@@ -263,8 +267,11 @@ def _fn_cases(q):
                     mos = ["uniform_average"]
                     if (q and L != 2) or (not q and not (L == 3)):
                         mos.append("raw_values")
+                    al = a
+                    if not q and L == 3 and hw in ([1, 1, 1], [3, 1, 1]):
+                        al = "V3"  # thorough: full V^3 x V^3 only for None and (1,2,3)
                     for mo in mos:
-                        yield from _emit("fn", name, opts, L, 1, hw, mo, a, a, None)
+                        yield from _emit("fn", name, opts, L, 1, hw, mo, al, al, None)
             for hw in ([None, [3, 1]] if q else HW[2]):
                 for mo in MO3:
                     yield from _emit("fn", name, opts, 2, 2, hw, mo, "V3", "P2" if q else "V3",
@@ -279,12 +286,12 @@ def _fn_cases(q):
             for hw in HW[2]:
                 for mo in (["uniform_average"] if q else ["uniform_average", "raw_values"]):
                     yield from _emit("fn", name, opts, 2, 1, hw, mo, "V3", "P2" if q else "V3",
-                                     tr, scale=(not q) or hw is None)
+                                     tr, scale=hw is None or (not q and hw == [1, 2]))
             tr = ["train", "M_q" if q else "M_t"]
             for hw in (None, [3, 1]):
                 for mo in MO3:
-                    yield from _emit("fn", name, opts, 2, 2, hw, mo, "TAG", "P2" if q else "V3",
-                                     tr, scale=hw is None)
+                    yield from _emit("fn", name, opts, 2, 2, hw, mo, "TAG", "P2", tr,
+                                     scale=hw is None)
     for name in R.RELATIVE + ("relative_loss",):
         for opts in optsets(name):
             for hw in ([None, [3]] if q else HW[1]):
